@@ -596,6 +596,10 @@ class NumericLiteral(Expr):
             except OverflowError:
                 raise ValueError(
                     'Illegal number (does not fit in SINGLE)')
+        if literal_type.is_numeric and not literal_type.is_integral and \
+           value in (float('inf'), float('-inf')):
+            raise ValueError(
+                f'Illegal number (does not fit in {literal_type.name})')
 
         return cls(value, literal_type)
 
